@@ -21,9 +21,11 @@ Definition file_pkg (pkg : bytes) (file : N) : bytes :=
 
 Definition qualify (pkg p n : bytes) : bytes := (match p with [] => pkg | _ => p end) ++ [46] ++ n.
 
-(* 2: field — [proto name; json name; type name; j5 kind; tenant; foreign package; foreign entity]
+(* 2: field — [proto name; json name; type name; j5 kind; tenant; foreign package; foreign entity; key format]
                [number; proto type; repeated; required; flatten; in oneof; primary; has tenant; filterable;
                 has foreign key; proto3 optional]
+   14: the leading comment of the element above (its description: " " ++ text ++ newline, inner
+       newlines followed by a space: commentSet.comment in j5convert/source_location.go)
    3: default filters of the field above (only when filterable)
    [parent] is the full name of the containing message (a map field refers to its own entry) *)
 Definition type_cols (pkg parent : bytes) (f : ofield) (t : otype) : N * bytes * bytes :=
@@ -38,20 +40,29 @@ Definition type_cols (pkg parent : bytes) (f : ofield) (t : otype) : N * bytes *
                     if k =? 0 then bs "object" else if k =? 1 then bs "oneof" else bs "enum")
   end.
 
+Definition comment_text (d : bytes) : bytes :=
+  [32] ++ flat_map (fun c => if c =? 10 then [10; 32] else [c]) d ++ [10].
+Definition comment_lines (d : bytes) : list line :=
+  match d with [] => [] | _ => [(14, [comment_text d], [])] end.
+Definition keyfmt_name (k : N) : bytes :=
+  match k with 1 => bs "FORMAT_ID62" | 2 => bs "FORMAT_UUID" | _ => [] end.
+
 Definition field_lines (pkg parent : bytes) (in_oneof : bool) (i : N) (f : ofield) : list line :=
   let '(pt, tn, kind) := type_cols pkg parent f (f_type f) in
   let is_map := match f_type f with TMap _ => true | _ => false end in
   (2, [to_snake (f_json f); f_json f; tn; (if f_repeated f && negb is_map then bs "array" else kind);
        match f_tenant f with Some t => t | None => [] end;
        match f_foreign f with Some p => fst p | None => [] end;
-       match f_foreign f with Some p => snd p | None => [] end],
+       match f_foreign f with Some p => snd p | None => [] end;
+       (if is_map then [] else keyfmt_name (f_keyfmt f))],
       [i; pt; b2n (f_repeated f); b2n (f_required f); b2n (f_flatten f);
        b2n in_oneof;
        b2n (f_primary f); b2n (match f_tenant f with Some _ => true | None => false end);
        b2n (match f_filter f with Some _ => true | None => false end);
        b2n (match f_foreign f with Some _ => true | None => false end);
        b2n (f_optional f)])
-  :: match f_filter f with Some l => [(3, l, [])] | None => [] end.
+  :: comment_lines (f_desc f)
+  ++ match f_filter f with Some l => [(3, l, [])] | None => [] end.
 
 Fixpoint fields_lines (pkg parent : bytes) (in_oneof : bool) (i : N) (l : list ofield) : list line :=
   match l with
@@ -62,28 +73,62 @@ Fixpoint fields_lines (pkg parent : bytes) (in_oneof : bool) (i : N) (l : list o
 (* the messages nested in a message because of its fields, in field order: the entry message of a map
    field (key = 1 string, value = 2) and the message of an inline object / oneof; then (a separate list
    in the descriptor) the inline enums *)
+(* the entry message of a map field *)
+Definition map_entry_lines (pkg parent : bytes) (file : N) (f : ofield) : list line :=
+  match f_type f with
+  | TMap v =>
+      let '(pt, tn, kind) := type_cols pkg parent f v in
+      [ (1, [parent ++ [46] ++ map_name (to_snake (f_json f)); []], [file; 0; 0]);
+        (2, [bs "key"; []; []; []; []; []; []; []], [1; 9; 0; 0; 0; 0; 0; 0; 0; 0; 0]);
+        (2, [bs "value"; []; tn; kind; []; []; []; keyfmt_name (f_keyfmt f)], [2; pt; 0; 0; 0; 0; 0; 0; 0; 0; 0]) ]
+  | _ => []
+  end.
+(* the nested enum an inline enum field defines *)
+Definition inline_enum_lines (parent : bytes) (f : ofield) : list line :=
+  match inline_of f with
+  | Some (n, k, il) =>
+      if k =? 2 then (4, [parent ++ [46] ++ n], [])
+                     :: map (fun v => (5, [fst v], [snd v])) (status_values (to_screaming_snake n ++ [95]) (il_options il))
+      else []
+  | None => []
+  end.
+
+(* a field of a tree-form inline schema, seen from the message [parent] that holds it: the nested message
+   it defines (with everything nested in that, pre-order: fields, nested messages, nested enums), then its
+   map entry message *)
+Fixpoint tfield_msg_lines (pkg parent : bytes) (file : N) (t : tfield) : list line :=
+  match t with
+  | TF n (TKInline k c fs os) r o d =>
+      (if k =? 2 then []
+       else let full := parent ++ [46] ++ to_camel n in
+            (1, [full; []], [file; 0; b2n (k =? 1)])
+            :: fields_lines pkg full (k =? 1) 1 (map of_tfield fs)
+            ++ flat_map (tfield_msg_lines pkg full file) fs
+            ++ flat_map (fun x => inline_enum_lines full (of_tfield x)) fs)
+      ++ map_entry_lines pkg parent file (of_tfield t)
+  | _ => map_entry_lines pkg parent file (of_tfield t)
+  end.
+
+(* the messages nested in a message because of its fields, in field order: the message of an inline
+   object / oneof (also as the item of an array / the value of a map) and then the entry message of a map
+   field (key = 1 string, value = 2); then (a separate list in the descriptor) the inline enums *)
 Definition entry_lines (pkg parent : bytes) (file : N) (fs : list ofield) : list line :=
   flat_map (fun f =>
-    match f_type f, f_inline f with
-    | TMap v, _ =>
-        let '(pt, tn, kind) := type_cols pkg parent f v in
-        [ (1, [parent ++ [46] ++ map_name (to_snake (f_json f)); []], [file; 0; 0]);
-          (2, [bs "key"; []; []; []; []; []; []], [1; 9; 0; 0; 0; 0; 0; 0; 0; 0; 0]);
-          (2, [bs "value"; []; tn; kind; []; []; []], [2; pt; 0; 0; 0; 0; 0; 0; 0; 0; 0]) ]
-    | TNested n k, Some il =>
+    match inline_of f with
+    | Some (n, k, il) =>
         if k =? 2 then []
-        else (1, [parent ++ [46] ++ n; []], [file; 0; b2n (k =? 1)])
-             :: fields_lines pkg (parent ++ [46] ++ n) (k =? 1) 1 (map of_sfield (il_fields il))
-    | _, _ => []
-    end) fs
-  ++ flat_map (fun f =>
-    match f_type f, f_inline f with
-    | TNested n k, Some il =>
-        if k =? 2 then (4, [parent ++ [46] ++ n], [])
-                       :: map (fun v => (5, [fst v], [snd v])) (status_values (to_screaming_snake n ++ [95]) (il_options il))
-        else []
-    | _, _ => []
-    end) fs.
+        else match il_tree il with
+             | [] => (1, [parent ++ [46] ++ n; []], [file; 0; b2n (k =? 1)])
+                     :: fields_lines pkg (parent ++ [46] ++ n) (k =? 1) 1 (map of_sfield (il_fields il))
+             | tfs => (1, [parent ++ [46] ++ n; []], [file; 0; b2n (k =? 1)])
+                      :: fields_lines pkg (parent ++ [46] ++ n) (k =? 1) 1 (map of_tfield tfs)
+                      ++ flat_map (tfield_msg_lines pkg (parent ++ [46] ++ n) file) tfs
+                      ++ flat_map (fun x => inline_enum_lines (parent ++ [46] ++ n) (of_tfield x)) tfs
+             end
+    | None => []
+    end
+    ++ map_entry_lines pkg parent file f) fs
+  ++ flat_map (inline_enum_lines parent) fs.
 
 (* 1: message — [full name; psm entity] [file; psm part; is oneof] *)
 Definition msg_lines (pkg : bytes) (file : N) (m : omsg) : list line :=
@@ -127,6 +172,44 @@ Definition file_lines (pkg : bytes) (file : N) (cs : list component) : list line
 Definition flatten (pkg : bytes) (cs : list component) : list line :=
   file_lines pkg 0 cs ++ file_lines pkg 1 cs ++ file_lines pkg 2 cs.
 
+(* 16: the leading comment of an element that is not a field - [element full name; comment] - after all
+   structural lines, in descriptor order: the messages of the main file (events: the nested message of
+   the event oneof; objects / oneofs of the block), then its enums (status values; the block's enums and
+   their options).  Nothing else carries a comment: generated messages, services and methods have none *)
+Fixpoint zip_notes {A} (l : list A) (d : list bytes) : list (A * bytes) :=
+  match l with
+  | [] => []
+  | x :: r => (x, match d with y :: _ => y | [] => [] end) :: zip_notes r (match d with _ :: t => t | [] => [] end)
+  end.
+Definition note_line (name d : bytes) : list line :=
+  match d with [] => [] | _ => [(16, [name; comment_text d], [])] end.
+Definition msg_notes (e : entity) : list line :=
+  let pkg := e_pkg e in
+  flat_map (fun p => note_line (pkg ++ [46] ++ event_type_name e ++ [46] ++ ev_name (fst p)) (snd p))
+           (zip_notes (e_events e) (n_event_desc (e_notes e)))
+  ++ flat_map (fun p => match fst p with
+                        | SObject n _ => note_line (pkg ++ [46] ++ n) (snd p)
+                        | SOneof n _ => note_line (pkg ++ [46] ++ n) (snd p)
+                        | SEnum _ _ => [] end)
+              (zip_notes (e_schemas e) (n_schema_desc (e_notes e))).
+Definition option_descs (e : entity) (i : nat) : list bytes := nth i (n_option_desc (e_notes e)) [].
+Fixpoint enum_schema_notes (e : entity) (i : nat) (l : list (eschema * bytes)) : list line :=
+  match l with
+  | [] => []
+  | (SEnum n opts, d) :: r =>
+      note_line (e_pkg e ++ [46] ++ n) d
+      ++ flat_map (fun p => note_line (e_pkg e ++ [46] ++ n ++ [46] ++ status_value_name (to_screaming_snake n ++ [95]) (fst p)) (snd p))
+                  (zip_notes opts (option_descs e i))
+      ++ enum_schema_notes e (S i) r
+  | _ :: r => enum_schema_notes e (S i) r
+  end.
+Definition enum_notes (e : entity) : list line :=
+  let en := e_pkg e ++ [46] ++ component_name e (bs "Status") in
+  flat_map (fun p => note_line (en ++ [46] ++ status_value_name (status_prefix e) (fst p)) (snd p))
+           (zip_notes (e_status e) (n_status_desc (e_notes e)))
+  ++ enum_schema_notes e 0 (zip_notes (e_schemas e) (n_schema_desc (e_notes e))).
+Definition notes (es : list entity) : list line := flat_map msg_notes es ++ flat_map enum_notes es.
+
 (* the client API's StateEntity:
    8: [name; full name; schema name; query service] ; 9: primary keys ; 10: command services ;
    11: events ; 12: query method [name; path] [verb] ; 13: command method [service; name; path] [verb] *)
@@ -169,7 +252,7 @@ Definition c17_check (c : c17case) : bool :=
   match c with
   | EC es ok errc lines cok clines =>
       match compile_file es with
-      | Ok cs => ok && list_eqb line_eqb (flatten (file_pkg_of es) cs) lines
+      | Ok cs => ok && list_eqb line_eqb (flatten (file_pkg_of es) cs ++ notes es) lines
                  && Bool.eqb cok (client_accepts cs)
                  && (negb cok || (list_eqb line_eqb (flat_map (fun e => client_lines (client_view e)) es) clines
                                   && grouping_ok es cs))
@@ -191,7 +274,7 @@ Definition c17_diff (c : c17case) :=
   match c with
   | EC es ok _ lines cok clines =>
       match compile_file es with
-      | Ok cs => match first_diff 0 (flatten (file_pkg_of es) cs) lines with
+      | Ok cs => match first_diff 0 (flatten (file_pkg_of es) cs ++ notes es) lines with
                  | Some d => Some d
                  | None => first_diff 1000 (flat_map (fun e => client_lines (client_view e)) es) clines
                  end
